@@ -69,21 +69,23 @@ theorem cleanup_idle (cfg : Cfg) (snap cur : List Conn) (closing : List (Conn ×
       · split
         · exact ih _ _ hnd' hrem
         · rename_i hcond
-          apply ih _ _ hnd
-          by_cases hi : c.idle = true
-          · right
-            simp only [hi, isReserved, List.contains_nil, Bool.not_false, Bool.and_self, Bool.true_and, decide_eq_true_eq,
-              Nat.not_lt] at hcond
-            exact hcond
-          · rcases hinv with h | h
-            · left
-              intro x hx hxi
-              have := h x hx hxi
-              simp only [List.mem_cons] at this
-              rcases this with rfl | h2
-              · exact absurd hxi hi
-              · exact h2
-            · right; exact h
+          split
+          · exact ih _ _ hnd' hrem
+          · apply ih _ _ hnd
+            by_cases hi : c.idle = true
+            · right
+              simp only [hi, isReserved, List.contains_nil, Bool.not_false, Bool.and_self, Bool.true_and, decide_eq_true_eq,
+                Nat.not_lt] at hcond
+              exact hcond
+            · rcases hinv with h | h
+              · left
+                intro x hx hxi
+                have := h x hx hxi
+                simp only [List.mem_cons] at this
+                rcases this with rfl | h2
+                · exact absurd hxi hi
+                · exact h2
+              · right; exact h
 
 theorem assignOne_idle (cfg : Cfg) (s : State) (r : Req) :
     idleCount (assignOne cfg s r).1.conns ≤ idleCount s.conns := by
@@ -151,14 +153,16 @@ theorem cleanup_removes (cfg : Cfg) (res : List Nat) (snap cur : List Conn) (clo
       · exact rem _ hx
       · split at hx
         · exact rem _ hx
-        · rename_i hc he _
-          obtain ⟨h1, h2⟩ := ih cur closing hnd x hx
-          refine ⟨h1, ?_⟩
-          intro hm
-          simp only [List.mem_cons] at hm
-          rcases hm with rfl | hm
-          · exact ⟨by simpa using hc, by simpa using he⟩
-          · exact h2 hm
+        · split at hx
+          · exact rem _ hx
+          · rename_i hc he _ _
+            obtain ⟨h1, h2⟩ := ih cur closing hnd x hx
+            refine ⟨h1, ?_⟩
+            intro hm
+            simp only [List.mem_cons] at hm
+            rcases hm with rfl | hm
+            · exact ⟨by simpa using hc, by simpa using he⟩
+            · exact h2 hm
 
 /-- **C09.never_hand_out_expired (a)** — after the house-keeping loop no connection that
 reported closed or expired is left in the pool (so none can be assigned by the second loop). -/
@@ -204,7 +208,8 @@ theorem cleanup_closing (cfg : Cfg) (res : List Nat) (snap cur : List Conn) (clo
     (P : Conn × Reason → Prop) (hold : ∀ e ∈ closing, P e)
     (hexp : ∀ c, c.expired = true → P (c, .expired))
     (hsur : ∀ c k, c.idle = true → isReserved res c = false →
-      (∀ l : List Conn, surplusCount cfg l > cfg.maxKeepalive → idleCount l = k → P (c, .surplus k))) :
+      (∀ l : List Conn, surplusCount cfg l > cfg.maxKeepalive → idleCount l = k → P (c, .surplus k)))
+    (habn : ∀ c, cfg.reclaimAbandoned = true → c.idle = false → isReserved res c = false → P (c, .abandoned)) :
     ∀ e ∈ (cleanup cfg res snap cur closing).2, P e := by
   induction snap generalizing cur closing with
   | nil => simpa [cleanup] using hold
@@ -229,26 +234,51 @@ theorem cleanup_closing (cfg : Cfg) (res : List Nat) (snap cur : List Conn) (clo
           rcases hem with h | rfl
           · exact hold e h
           · exact hsur c _ hcond.1.1 hcond.1.2 cur hcond.2 rfl
-        · exact ih _ _ hold
+        · split
+          · rename_i hcond
+            simp only [Bool.and_eq_true, Bool.not_eq_eq_eq_not, Bool.not_true] at hcond
+            apply ih
+            intro e hem
+            simp only [List.mem_append, List.mem_singleton] at hem
+            rcases hem with h | rfl
+            · exact hold e h
+            · exact habn c hcond.1.1 hcond.2 hcond.1.2
+          · exact ih _ _ hold
 
 /-- **C09.close_reasons** — with the surplus test counting *idle* connections (the repaired
 expression; `Gen.poolCountsIdleOnly` says what the current source does), every connection the
 house-keeping loop closes is expired, or idle, not handed to any request, while the idle connections outnumber the
-keep-alive limit. -/
+keep-alive limit - or it is not idle at all and no request holds it (an abandoned connection: never an idle one). -/
 theorem close_reasons (cfg : Cfg) (hfix : cfg.countIdleOnly = true) (res : List Nat) (s : State) :
     ∀ e ∈ (cleanup cfg res s.conns s.conns []).2,
       (e.2 = .expired ∧ e.1.expired = true) ∨
-      (∃ k, e.2 = .surplus k ∧ e.1.idle = true ∧ isReserved res e.1 = false ∧ k > cfg.maxKeepalive) := by
+      (∃ k, e.2 = .surplus k ∧ e.1.idle = true ∧ isReserved res e.1 = false ∧ k > cfg.maxKeepalive) ∨
+      (e.2 = .abandoned ∧ e.1.idle = false ∧ isReserved res e.1 = false) := by
   apply cleanup_closing cfg res s.conns s.conns []
     (fun e => (e.2 = .expired ∧ e.1.expired = true) ∨
-      (∃ k, e.2 = .surplus k ∧ e.1.idle = true ∧ isReserved res e.1 = false ∧ k > cfg.maxKeepalive)) (by simp)
+      (∃ k, e.2 = .surplus k ∧ e.1.idle = true ∧ isReserved res e.1 = false ∧ k > cfg.maxKeepalive) ∨
+      (e.2 = .abandoned ∧ e.1.idle = false ∧ isReserved res e.1 = false)) (by simp)
   · intro c he; left; exact ⟨rfl, he⟩
   · intro c k hi hr l hl hk
-    right
+    right; left
     refine ⟨k, rfl, hi, hr, ?_⟩
     simp only [surplusCount, hfix, if_true] at hl
     simp only [idleCount] at hk
     omega
+  · intro c _ hi hr
+    right; right
+    exact ⟨rfl, hi, hr⟩
+
+/-- **C09.idle_closed_only_for_reason** — in particular an *idle* connection is closed by the house-keeping loop only because
+it expired or because the idle connections outnumber the keep-alive limit. -/
+theorem idle_closed_only_for_reason (cfg : Cfg) (hfix : cfg.countIdleOnly = true) (res : List Nat) (s : State) :
+    ∀ e ∈ (cleanup cfg res s.conns s.conns []).2, e.1.idle = true →
+      (e.2 = .expired ∧ e.1.expired = true) ∨ (∃ k, e.2 = .surplus k ∧ k > cfg.maxKeepalive) := by
+  intro e he hi
+  rcases close_reasons cfg hfix res s e he with h | ⟨k, h1, _, _, h4⟩ | ⟨_, h2, _⟩
+  · exact Or.inl h
+  · exact Or.inr ⟨k, h1, h4⟩
+  · rw [hi] at h2; cases h2
 
 /-- the second loop closes a connection only to make room at the connection limit, and only an
 idle one that no request has been handed -/
